@@ -90,6 +90,13 @@ func sameRoot(a, b ssa.Value) bool {
 				v = x.X
 			case *ssa.UnOp:
 				v = x.X
+			case *ssa.Alloc:
+				// a parameter spilled to a cell because a function literal captures it
+				if st := singleStore(x); st != nil && st.Addr == ssa.Value(x) {
+					v = st.Val
+				} else {
+					return v
+				}
 			default:
 				return v
 			}
@@ -949,4 +956,90 @@ func ruleC06SeidEntropy(w *World, r *Report) {
 		})
 		r.check(!det, "R06.7", w.FuncName(nc), "the local-SEID generator is seeded", w.Pos(nc.Pos()), "no rand.New without a recognised source", "rand.New is called with a source this rule does not recognise")
 	}
+}
+
+
+// interpretRegion walks the CFG from block start (entered from prev) for one valuation of the atoms, the
+// way evalBoolFuncV does for a whole function, and stops at the first Return or when it is about to
+// enter a block for which stop answers true. It returns the Return reached (nil when it stopped at a
+// stop block) and whether the walk was decided all the way.
+func interpretRegion(f *ssa.Function, start, prev *ssa.BasicBlock, atomV func(ssa.Value) (val, known, isAtom bool), stop func(*ssa.BasicBlock) bool) (*ssa.Return, bool) {
+	env := map[ssa.Value]bool{}
+	b := start
+	val := func(v ssa.Value) (bool, bool) {
+		if c, isK := constBool(v); isK {
+			return c, true
+		}
+		x, ok := env[v]
+		return x, ok
+	}
+	for steps := 0; steps < 400; steps++ {
+		var next *ssa.BasicBlock
+		for _, ins := range b.Instrs {
+			if v, isV := ins.(ssa.Value); isV {
+				if _, isPhi := ins.(*ssa.Phi); !isPhi && v.Type().Underlying().String() == "bool" {
+					if x, known, isAtom := atomV(v); isAtom {
+						if !known {
+							return nil, false
+						}
+						env[v] = x
+						continue
+					}
+				}
+			}
+			switch x := ins.(type) {
+			case *ssa.Phi:
+				for k, p := range b.Preds {
+					if p == prev {
+						if v, ok := val(x.Edges[k]); ok {
+							env[x] = v
+						}
+					}
+				}
+			case *ssa.UnOp:
+				if x.Op == token.NOT {
+					if v, ok := val(x.X); ok {
+						env[x] = !v
+					}
+				}
+			case *ssa.BinOp:
+				l, ok1 := val(x.X)
+				rr, ok2 := val(x.Y)
+				if ok1 && ok2 {
+					switch x.Op {
+					case token.EQL:
+						env[x] = l == rr
+					case token.NEQ:
+						env[x] = l != rr
+					case token.AND:
+						env[x] = l && rr
+					case token.OR:
+						env[x] = l || rr
+					}
+				}
+			case *ssa.If:
+				c, ok := val(x.Cond)
+				if !ok {
+					return nil, false
+				}
+				if c {
+					next = b.Succs[0]
+				} else {
+					next = b.Succs[1]
+				}
+			case *ssa.Jump:
+				next = b.Succs[0]
+			case *ssa.Return:
+				return x, true
+			}
+		}
+		if next == nil {
+			return nil, false
+		}
+		if stop(next) {
+			return nil, true
+		}
+		prev, b = b, next
+	}
+	return nil, false
 }
